@@ -1,6 +1,6 @@
 (* C03 — Depth limits are respected and every feasible depth limit is usable.
    Only statements closed by [exact]; Print Assumptions; non-vacuity example. *)
-From GE Require Import Base Tape Grammar WellTyped Synth Sat DistProofs SynthFrame SynthSat SynthDepth.
+From GE Require Import Base Tape Grammar WellTyped Synth Sat DistProofs SynthFrame SynthSat SynthDepth Linear MapProofs.
 Open Scope Z_scope.
 
 (* default depth mode, every hierarchy (decl_ok; no empty option lists and no refinement that rejects
@@ -37,6 +37,21 @@ Theorem C03_choice_fits : forall g k D, depth_limit k = Some D ->
   safe (choose g k key alts ctx) st (fun x st1 => In x alts /\ fits_at g D x ctx).
 Proof. exact choose_safe. Qed.
 Print Assumptions C03_choice_fits.
+
+(* after mapping: a program the GE / structured GE mapping returns under a depth-limited decider, and one the dynamic
+   structured GE mapping returns, is no deeper than the limit - whatever the genotype *)
+Theorem C03_mapped_programs_within_limit : forall d order g k D, extract d order = Ok g -> perm_order order -> d_xdepth d = false ->
+  decl_ok d = true -> decl_live d = true -> depth_limit k = Some D -> D < INF -> decider_validate g k = Ok tt ->
+  (forall fuel dna v st, ge_map fuel g k dna = (Ok v, st) -> vdepth v <= D) /\
+  (forall fuel infra v st, sge_map fuel g k infra = (Ok v, st) -> vdepth v <= D).
+Proof. exact mappings_depth. Qed.
+Print Assumptions C03_mapped_programs_within_limit.
+
+Theorem C03_dsge_mapped_programs_within_limit : forall d order g D, extract d order = Ok g -> perm_order order -> d_xdepth d = false ->
+  decl_ok d = true -> decl_live d = true -> D < INF ->
+  forall fuel s dna v st, dsge_map fuel g D s dna = (Ok v, st) -> vdepth v <= D.
+Proof. exact dsge_mapping_depth. Qed.
+Print Assumptions C03_dsge_mapped_programs_within_limit.
 
 (* ---- non-vacuity: E -> Lit(int) | Many(list[E]) | Neg(E) at its minimum depth 1 and at depth 3 ---- *)
 Definition ex3 : decl :=
